@@ -419,6 +419,11 @@ def mutation_twin(ctx, n):
                             v[1].append('more')
                 pause(r)
                 cassette.save_recording(rec)
+                if r.random() < 0.5:
+                    # an interception that finishes on another thread after the operation returned still writes into the recording
+                    # object (item assignment, as the recorder does): whatever the wrapped cassette does with that, the wrapper does too
+                    pause(r)
+                    rec['late%d' % c] = ['written after the save was requested']
             return ids
         fk = None
         if kind == 's3':
@@ -433,7 +438,13 @@ def mutation_twin(ctx, n):
             ids_d = drive(direct.cassette, lambda r: (r.random(), r.random()))
             a = AsyncRecordOnlyTapeCassette(wrapped.cassette, flush_interval=rng.choice([0.0002, 0.002]), timeout_on_close=60)
             a.start()
-            ids_a = drive(a, pause_async)
+            try:
+                ids_a = drive(a, pause_async)
+            except Exception as ex:
+                ctx.violation('a request sequence the wrapped cassette accepts raised %s in the calling thread when sent through the asynchronous wrapper' % type(ex).__name__,
+                              {'mutation_twin': True, 'cassette': kind, 'seed': seed, 'error': repr(ex)[:200]})
+                a.close()
+                continue
             a.close()
             ctx.case(('mutation_twin', kind, seed))
             ctx.count('mutation_twin_runs')
